@@ -113,6 +113,10 @@ def run(ck, facts, tier):
                 c07.run(ck, facts, tier)
         finally:
             ck._c06_c07_nested = False
+    # "for every calendar" includes one that was stored and loaded again (pickle / JSON are how calendars travel between processes): the stored form of the
+    # calendar types is the derived, attribute-free one (C16 S16.2/S16.3/S16.7) — a field-level `serialize_with` that drops a masked weekday changes every roll
+    from rules import c16 as c16m
+    c16m.run(ck, facts, tier, only_types=r"^calendars::calendar::")
     ck.not_decided[:], ck.trusted[:] = nd, tb
     from rules import pywrap
     pywrap.run_calendar_wrappers(ck, facts)          # what a Python user calls is the wrapper: it must hand its arguments to the core method unchanged
